@@ -52,12 +52,15 @@ LikeM(s, p) == IF p = <<>> THEN s = <<>>
                ELSE s # <<>> /\ (Head(p) = "_" \/ Head(p) = Head(s)) /\ LikeM(Tail(s), Tail(p))
 
 IsNum(v) == v.t = "i"
+\* (same denominators are compared directly: the cross product of two values scaled by 10^6 would leave 32 bits)
 LessV(a,b) == IF a.t = "s" /\ b.t = "s" THEN StrIdx(a.s) < StrIdx(b.s)
               ELSE IF a.t = "b" /\ b.t = "b" THEN a.n < b.n
+              ELSE IF a.d = b.d THEN a.n < b.n
               ELSE a.n * b.d < b.n * a.d
-EqV(a,b)   == IF a.t = "s" /\ b.t = "s" THEN a.s = b.s
+EqV(a,b)   == IF a.t = "x" \/ b.t = "x" THEN a = b        \* opaque values are equal only to themselves
+              ELSE IF a.t = "s" /\ b.t = "s" THEN a.s = b.s
               ELSE IF a.t = "b" /\ b.t = "b" THEN a.n = b.n
-              ELSE a.t = b.t /\ a.n * b.d = b.n * a.d
+              ELSE a.t = b.t /\ (IF a.d = b.d THEN a.n = b.n ELSE a.n * b.d = b.n * a.d)
 SameKind(a,b) == a.t = b.t
 Cmp(op,a,b) == IF IsErr(a) \/ IsErr(b) THEN ERR ELSE IF IsNull(a) \/ IsNull(b) THEN NULL
    ELSE IF ~SameKind(a,b) THEN ERR
@@ -315,6 +318,7 @@ EvalQ(q0, db0, outer) ==
 AbsI(x) == IF x < 0 THEN -x ELSE x
 ObsValEq(sv, ov) ==
    IF IsNull(sv) \/ IsNull(ov) THEN IsNull(sv) /\ IsNull(ov)
+   ELSE IF sv.t = "x" \/ ov.t = "x" THEN sv = ov          \* opaque values (outside the modelled types) are compared as tokens
    ELSE IF sv.t = "s" \/ ov.t = "s" THEN sv.t = ov.t /\ sv.s = ov.s
    ELSE IF sv.t = "b" THEN ov.t \in {"b", "i"} /\ ov.d = 1 /\ ov.n = sv.n
    ELSE IF sv.t = "i" THEN ov.t \in {"i", "b"} /\ (IF ov.d = 1 THEN sv.n = ov.n * sv.d
